@@ -69,9 +69,18 @@ def _categorical_equal(one, two):
     one_content = ak._util.wrap(one.content, behavior)
     two_content = ak._util.wrap(two.content, behavior)
 
-    if len(one_content) == len(two_content) and ak.operations.reducers.all(
-        one_content == two_content, axis=None
-    ):
+    same_categories = False
+    if len(one_content) == len(two_content):
+        try:
+            same_categories = ak.operations.reducers.all(
+                one_content == two_content, axis=None
+            )
+        except ValueError:
+            # records and custom types have no elementwise `==`:
+            # compare them through the hashable lists below
+            same_categories = False
+
+    if same_categories:
         one_mapped = one_index
 
     else:
